@@ -193,6 +193,15 @@ def run(ctx):
                                                'impl_trace': traces[i], 'model_trace': model[-3000:]})
     ctx.count('table', len(cases), [repr(t) for t in traces], histogram=hist)
     ctx.sample({'stream': 'table', 'case': cases[0], 'final_observation': traces[0][-1]})
+    # ---- stream `mdib-index`: after every transaction / report every index of the provider's and the consumer's
+    # tables is recomputed from table.objects with the CURRENT attribute values and compared (harness/mdibrun.py)
+    import mdibcheck
+    import mdibgen
+    mp = mdibcheck.run_histories(ctx, 'mdib-index', ctx.n(30, 400), ctx.n(10, 40), consumer=True,
+                                 weights={'state': 3, 'ctx': 3, 'location': 1, 'descr': 7, 'reject': 2, 'abort': 1})
+    mdibcheck.judge(ctx, 'mdib-index', mp, [mdibgen.oracle_provider, mdibgen.oracle_consumer], {'C11'})
+    ctx.count('mdib-index', len(mp), [repr(r['trace']) for _, r in mp], histogram=mdibcheck.op_histogram(mp),
+              snapshots_with_index_check=2 * sum(len(r['trace']) for _, r in mp))
     if ctx.thorough:
         hits = ctx.gate_grep(['Multikey', 'Common'])
         if hits:
@@ -206,5 +215,7 @@ def run(ctx):
         assumptions=['objects are compared by identity (stub objects without __eq__)', 'keys are ints or None'],
         trusted_base=['correspondence harness harness/impl/c11_impl.py (stub objects, reads _objects/_object_ids/index dicts)',
                       'model evaluated inside Coq with vm_compute on generated case files'],
-        not_modelled=['RLock acquisition inside the table (single-threaded use here; exclusion is C04/C07)',
+        not_modelled=['mdib-index stream: provider commits and consumer report processing on the loop-back world; every '
+                      'snapshot recomputes all indices of the three tables from the stored objects (oracle, no model)',
+                      'RLock acquisition inside the table (single-threaded use here; exclusion is C04/C07)',
                       'ObjectSelector.find (linear scan by construction)'])
